@@ -16,6 +16,7 @@ from ._helpers_rules_c import (
 )
 from ._helpers_str_l import assignments, branch_atoms, consistent_ok, describe_facts
 from ._helpers_rob_f1 import Inliner, rcall_nodes, test_edges_inl, with_inlined_tests
+from ._helpers_str2_l import ancestry_kind, pure_helper_value, slot_insertions
 
 R = Registry(
     "C28",
@@ -30,7 +31,10 @@ R = Registry(
         "listeners once each; subclass propagation adds only listeners not yet present; every for_modify() "
         "returns the collection that is installed on the owner (the placeholder's lazy install is a guarded "
         "test-and-set in one mini_gil region, returns what it installed / what is installed, and mini_gil is a "
-        "lock in every build)."
+        "lock in every build); update_subclass gathers inherited listeners from the whole ancestry of a later-created "
+        "class (the lazily filled class-level map must not end the walk at an untouched base); the two registry maps "
+        "are written as inverse relations by everything that adds to them, each entry into the mapping the registry "
+        "itself holds (not into a default handed out for a missing key)."
     ),
     not_decided=(
         "full listen/remove/propagate semantics over histories; _JoinedListener; named / retval / once wrappers "
@@ -514,9 +518,10 @@ def _dedup_extends(ctx, f, g, inl, tgt):
     return sites, problems
 
 
-@R.rule("C28-R4", floor=4, template="T-PATH",
-        desc="update_subclass adds only listener functions not already present in the subclass collection; "
-             "callers create a subclass collection only when it is missing")
+@R.rule("C28-R4", floor=5, template="T-PATH",
+        desc="update_subclass adds only listener functions not already present in the subclass collection and gathers "
+             "them from every ancestor of the target (the class-level map is filled lazily: a base without a collection "
+             "must not end the walk); callers create a subclass collection only when it is missing")
 def r4(ctx):
     cd = ctx.index.cls(f"{ATTR}::_ClsLevelDispatch")
     f = ctx.method(cd.key, "update_subclass")
@@ -526,6 +531,7 @@ def r4(ctx):
     ext, problems = _dedup_extends(ctx, f, g, inl, tgt)
     ctx.require(ext, "update_subclass no longer extends the target's listener collection")
     ctx.check(not problems, f.key + ":no-duplicates", "; ".join(problems), "extend([fn ... if fn not in clslevel])", f.loc)
+    _ancestor_coverage(ctx, f, g, inl, tgt, ext)
     creates = [n for st in walk_stmts(f.node.body) if isinstance(st, ast.Assign)
                and any(isinstance(t, ast.Subscript) and inl.dotted(t.value) == "self._clslevel" for t in st.targets) for n in g.nodes_for(st)]
     bad = [n for n in creates if (f"{tgt} in self._clslevel", False) not in inl.atoms(g.edge_guards(n))]
@@ -549,6 +555,62 @@ def r4(ctx):
         ctx.check(bool(us) and bool(reads) and w is None, fc.key,
                   "the class-level collection of the target class is read without making sure it exists / is populated from the base classes",
                   "update_subclass(target_cls) when missing, before parent._clslevel[target_cls]", fc.loc, w)
+
+
+def _ancestor_coverage(ctx, f, g, inl, tgt, sites):
+    """`_clslevel` is filled lazily, class by class.  The collection of a class created after listen() is therefore
+    complete only if update_subclass gathers from *every* ancestor that has a collection: the classes it walks
+    must be the whole linearised ancestry of the target, or -- when only the direct bases are walked -- a base
+    without a collection must be initialised (recursively) before it is read, never skipped."""
+    pm = parent_map(f.node)
+    slot_of = lambda e: e.slice if isinstance(e, ast.Subscript) and dotted(e.value) == "self._clslevel" else None  # noqa: E731
+    loops = {}
+    for c in sites:
+        a = c.args[0] if c.args else None
+        src = None
+        if isinstance(a, (ast.ListComp, ast.GeneratorExp)) and len(a.generators) == 1:
+            src = inl(a.generators[0].iter)
+        elif isinstance(a, ast.Name):
+            for anc in _ancestors(pm, c):
+                if isinstance(anc, ast.For) and isinstance(anc.target, ast.Name) and anc.target.id == a.id:
+                    src = inl(anc.iter)
+                    break
+        key = slot_of(src) if src is not None else None
+        ctx.require(isinstance(key, ast.Name), f"{f.qualname}: cannot tell which class's collection `{unparse(c)[:60]}` copies from")
+        loop = None
+        for anc in _ancestors(pm, c):
+            if isinstance(anc, ast.For) and isinstance(anc.target, ast.Name) and anc.target.id == key.id:
+                loop = anc
+                break
+        ctx.require(loop is not None, f"{f.qualname}: `{key.id}` of `{unparse(c)[:60]}` is not the variable of an enclosing loop over classes")
+        loops[loop] = key.id
+    problems = []
+    for loop, var in loops.items():
+        it = inl(loop.iter)
+        kind = ancestry_kind(it, tgt, lambda call: pure_helper_value(ctx, f, call))
+        ctx.require(kind is not None, f"{f.qualname}: cannot tell which ancestors of `{tgt}` `{unparse(it)}` walks")
+        if kind == "all":
+            continue
+        heads = [n.id for n in g.nodes if n.kind == "for" and n.stmt is loop]
+        init = rcall_nodes(g, inl, lambda nm, c: nm == f"self.{f.name}" and len(c.args) == 1 and inl.dotted(c.args[0]) == var)
+        known = test_edges_inl(g, inl, lambda t, p: t == f"{var} in self._clslevel" and p is True)
+        w = g.witness(heads, heads + [g.exit], avoid=init, edge_ok=both(no_exc, cut_edges(known)),
+                      start_edge_ok=lambda a, b, lab: lab == "true")
+        if w is not None:
+            problems.append(
+                f"inherited listeners are gathered from `{unparse(it)}` (direct bases only) and a base that has no "
+                f"collection yet is passed over (`{' -> '.join(x for x in g.describe_path(w) if x != 'join')}`): its own ancestors "
+                "are never visited, so a class created two or more levels below a listened class after listen() gets an empty "
+                "collection (its ancestors' listeners never fire for it; event.remove() later fails on it)")
+    ctx.check(not problems, f.key + ":covers-all-ancestors", "; ".join(problems),
+              "walks the whole ancestry of the target (or initialises every base before reading it)", f.loc)
+
+
+def _ancestors(pm, node):
+    node = pm.get(node)
+    while node is not None:
+        yield node
+        node = pm.get(node)
 
 
 class _SlotInliner(Inliner):
@@ -712,6 +774,100 @@ def r5(ctx):
               "interpreter can switch threads between the test and the store, so two threads can each create their own "
               "collection / exec-once mutex and run once-only listeners twice",
               "a real lock in every build", f"{cm.path}:{getattr(vals[0], 'lineno', 0)}")
+
+
+# ---------------------------------------------------------------------- C28-R6
+# event.remove() finds the collections that hold a listener through `_key_to_collection`; copying listeners to
+# another collection (propagate, Pool.recreate(), mapper inheritance) finds the listen() arguments behind a function
+# through `_collection_to_key`.  The two module-level maps are inverse relations: whoever records one direction
+# records the other, and records it *in the registry* -- not in a default object handed out for a missing key.
+def _registry_maps(m):
+    out = []
+    for nm, vals in m.assigns.items():
+        for v in vals:
+            if isinstance(v, ast.Dict) and not v.keys:
+                out.append(nm)
+            elif isinstance(v, ast.Call) and (call_name(v) or "").split(".")[-1] in ("defaultdict", "dict", "WeakKeyDictionary"):
+                out.append(nm)
+    return sorted(set(out))
+
+
+def _loop_heads(g, pm, stmt):
+    """CFG heads of the loops enclosing `stmt`, innermost first"""
+    out = []
+    for anc in _ancestors(pm, stmt):
+        if isinstance(anc, (ast.For, ast.While)):
+            out.append([n.id for n in g.nodes if n.stmt is anc and n.kind in ("for", "test")])
+    return out
+
+
+@R.rule("C28-R6", floor=4, template="T-SIBLING/T-FLOW",
+        desc="the two registry maps of event/registry.py are kept inverse to each other by everything that adds to "
+             "them: an entry M[a][b] = c is accompanied, in the same call / loop iteration, by N[b][c] = a (or by the "
+             "knowledge that it is already there), and each of the two is written into the mapping the registry "
+             "itself holds for the key, never into a default that is dropped when the key was missing")
+def r6(ctx):
+    m = ctx.index.module(REG)
+    maps = _registry_maps(m)
+    ctx.require(len(maps) == 2, f"{REG}: expected two module-level registry maps, found {maps}")
+    fam = []
+    for f in sorted(ctx.index.all_functions(m), key=lambda f: f.node.lineno):
+        if f.type_only or f.is_overload:
+            continue
+        if not any(isinstance(x, ast.Name) and x.id in maps for x in ast.walk(f.node)):
+            continue
+        g = ctx.cfg(f)
+        inl = Inliner(f.node)
+        ins = slot_insertions(f, g, inl, maps)
+        if ins:
+            ctx.functions_analysed.add(f.key)
+            fam.append((f, g, inl, ins))
+    # how the triple (outer key, inner key, value) of an entry of one map is rotated in the other map: read off the
+    # family itself (M[a][b] = c  <->  N[b][c] = a, hence N[x][y] = z  <->  M[z][x] = y)
+    rots = (lambda t: (t[1], t[2], t[0]), lambda t: (t[2], t[0], t[1]))
+    votes = {}
+    for f, g, inl, ins in fam:
+        for i in ins:
+            for j in ins:
+                for r in (0, 1):
+                    if j.map != i.map and (j.k1, j.k2, j.val) == rots[r]((i.k1, i.k2, i.val)):
+                        votes.setdefault(i.map, [0, 0])[r] += 1
+    ctx.require(all(mp in votes and votes[mp][0] != votes[mp][1] for mp in maps),
+                f"{REG}: no function records an entry in both registry maps; inverse relation not understood ({votes})")
+    rot = {mp: rots[0] if votes[mp][0] > votes[mp][1] else rots[1] for mp in maps}
+    for f, g, inl, ins in fam:
+        pm = parent_map(f.node)
+        seen = set()
+        for i in ins:
+            ctx.require(i.map not in seen, f"{f.qualname}: several insertions into {i.map}; pairing not understood")
+            seen.add(i.map)
+            other = [x for x in maps if x != i.map][0]
+            # (a) written where the registry can find it again
+            ctx.check(i.kind == "live", f"{f.key}:{i.map}:entry-lands-in-registry",
+                      f"`{unparse(i.stmt)}` writes into `{i.spelled}`: when {i.map} has nothing for `{i.k1}` yet, that is a "
+                      f"throw-away default, the entry is lost while the inverse map {other} still gets its half -- a listener copied "
+                      "on from this collection is then unknown to the registry: event.remove() of the original registration no "
+                      "longer reaches it and it keeps firing (contains() says it is gone)",
+                      f"{i.map}[{i.k1}] is the registry's own mapping", f.loc)
+            # (b) the inverse entry accompanies it (or is known to be there already)
+            p1, p2, pv = rot[i.map]((i.k1, i.k2, i.val))
+            partner = [j for j in ins if j.map == other and (j.k1, j.k2, j.val) == (p1, p2, pv)]
+            known = test_edges_inl(g, inl, lambda t, p, p1=p1, p2=p2, other=other: p is True and t == f"{p2} in {other}[{p1}]")
+            pn = [j.node for j in partner]
+            heads = _loop_heads(g, pm, i.stmt)
+            start = heads[0] if heads else [g.entry]
+            ends = (heads[0] if heads else []) + [g.exit]
+            ok_edge = both(no_exc, cut_edges(known))
+            before = g.witness(start, [i.node], avoid=pn, edge_ok=ok_edge)
+            after = g.witness([i.node], ends, avoid=pn, edge_ok=ok_edge)
+            good = bool(partner or known) and (before is None or after is None)
+            ctx.check(good, f"{f.key}:{i.map}:inverse-entry-recorded",
+                      f"`{unparse(i.stmt)}` records {i.map}[{i.k1}][{i.k2}] = {i.val}, but "
+                      + ("nothing records" if not partner else "a path through the function does not record")
+                      + f" the inverse {other}[{p1}][{p2}] = {pv}: one direction of the listener registry knows the "
+                      "listener, the other does not (event.remove() and the copy to another collection look it up there)",
+                      f"with {other}[{p1}][{p2}] = {pv}", f.loc,
+                      g.describe_path(after) if (partner and after) else None)
 
 
 # ---------------------------------------------------------------------- self-test battery
@@ -991,3 +1147,81 @@ R.mutant("benign-exec-once-flag-decision-in-boolean-local", ATTR,
 R.mutant("exec-once-flag-decision-in-boolean-local-ignores-retry", ATTR,
          sub("                    if not exception or not retry_on_exception:\n                        self._exec_once = True\n",
              "                    mark_done = not exception\n                    if mark_done:\n                        self._exec_once = True\n"), "C28-R1")
+
+# --- round-2 strengthening (str2-l): seeds C28_3 (update_subclass walks __bases__) and C28_4 (registry entry written
+# into a `.get(k, {})` default).  C28-R4 `:covers-all-ancestors`, new C28-R6.
+_MRO_LOOP = "        for cls in target.__mro__[1:]:\n            if cls in self._clslevel:\n"
+R.mutant("seed3-update-subclass-walks-direct-bases-only", ATTR,
+         sub(_MRO_LOOP, "        for cls in target.__bases__:\n            if cls in self._clslevel:\n"), "C28-R4")
+R.mutant("update-subclass-walks-bounded-mro-prefix", ATTR,
+         sub(_MRO_LOOP, "        for cls in target.__mro__[1:2]:\n            if cls in self._clslevel:\n"), "C28-R4")
+R.mutant("update-subclass-direct-bases-through-local-inverted-test", ATTR,
+         sub(_MRO_LOOP + _UPD_EXT.split("\n", 1)[1],
+             "        parents = target.__bases__\n        for cls in parents:\n            if cls not in self._clslevel:\n                continue\n"
+             "            clslevel.extend(\n                [fn for fn in self._clslevel[cls] if fn not in clslevel]\n            )\n"), "C28-R4")
+_PARENTS_HELPER = "    @staticmethod\n    def _parents_of(klass: Type[_ET]) -> Any:\n        return klass.%s\n\n"
+_UPD_DEF = "    def update_subclass(self, target: Type[_ET]) -> None:\n"
+R.mutant("update-subclass-helper-returns-direct-bases", ATTR,
+         chain(sub(_MRO_LOOP, "        for cls in self._parents_of(target):\n            if cls in self._clslevel:\n"),
+               sub(_UPD_DEF, _PARENTS_HELPER % "__bases__" + _UPD_DEF)), "C28-R4")
+R.mutant("benign-update-subclass-helper-returns-mro-tail", ATTR,
+         chain(sub(_MRO_LOOP, "        for cls in self._parents_of(target):\n            if cls in self._clslevel:\n"),
+               sub(_UPD_DEF, _PARENTS_HELPER % "__mro__[1:]" + _UPD_DEF)), None)
+R.mutant("benign-update-subclass-ancestry-in-local", ATTR,
+         sub(_MRO_LOOP, "        ancestry = target.__mro__\n        for cls in ancestry[1:]:\n            if cls in self._clslevel:\n"), None)
+R.mutant("benign-update-subclass-whole-mro-skipping-target", ATTR,
+         sub(_MRO_LOOP + _UPD_EXT.split("\n", 1)[1],
+             "        for cls in target.mro():\n            if cls is target or cls not in self._clslevel:\n                continue\n"
+             "            clslevel.extend(\n                [fn for fn in self._clslevel[cls] if fn not in clslevel]\n            )\n"), None)
+R.mutant("benign-update-subclass-direct-bases-initialised-first", ATTR,
+         sub(_MRO_LOOP + _UPD_EXT.split("\n", 1)[1],
+             "        for cls in target.__bases__:\n            if cls not in self._clslevel:\n                self.update_subclass(cls)\n"
+             "            clslevel.extend(\n                [fn for fn in self._clslevel[cls] if fn not in clslevel]\n            )\n"), None)
+R.mutant("update-subclass-direct-bases-initialised-only-for-some", ATTR,
+         sub(_MRO_LOOP + _UPD_EXT.split("\n", 1)[1],
+             "        for cls in target.__bases__:\n            if cls not in self._clslevel:\n"
+             "                if not getattr(cls, \"_sa_propagate_class_events\", True):\n                    continue\n"
+             "                self.update_subclass(cls)\n"
+             "            clslevel.extend(\n                [fn for fn in self._clslevel[cls] if fn not in clslevel]\n            )\n"), "C28-R4")
+_MULTI_OLD = "    old_listener_to_key = _collection_to_key[oldowner_ref]\n"
+_MULTI_NEW = "    new_listener_to_key = _collection_to_key[newowner_ref]\n"
+R.mutant("seed4-multi-copy-entry-written-into-get-default", REG,
+         sub(_MULTI_OLD + _MULTI_NEW, "    old_listener_to_key = _collection_to_key.get(oldowner_ref, {})\n"
+                                      "    new_listener_to_key = _collection_to_key.get(newowner_ref, {})\n"), "C28-R6")
+R.mutant("multi-copy-entry-written-into-get-or-fresh", REG,
+         sub(_MULTI_NEW, "    new_listener_to_key = _collection_to_key.get(newowner_ref) or {}\n"), "C28-R6")
+R.mutant("multi-copy-entry-written-into-conditional-fresh", REG,
+         sub(_MULTI_NEW, "    new_listener_to_key = (\n        _collection_to_key[newowner_ref]\n        if newowner_ref in _collection_to_key\n        else {}\n    )\n"), "C28-R6")
+R.mutant("multi-copy-fresh-mapping-stored-back-only-sometimes", REG,
+         sub(_MULTI_NEW, "    new_listener_to_key = _collection_to_key.get(newowner_ref)\n    if new_listener_to_key is None:\n"
+                         "        new_listener_to_key = {}\n        if oldowner_ref in _collection_to_key:\n"
+                         "            _collection_to_key[newowner_ref] = new_listener_to_key\n"), "C28-R6")
+_SIC_TAIL = "    listener_to_key = _collection_to_key[owner_ref]\n    listener_to_key[listen_ref] = key\n\n    return True\n"
+R.mutant("stored-in-collection-inverse-entry-dropped", REG, sub(_SIC_TAIL, "    return True\n"), "C28-R6")
+R.mutant("multi-copy-inverse-entry-rotated-wrongly", REG,
+         sub("        new_listener_to_key[listen_ref] = key\n", "        new_listener_to_key[key] = listen_ref\n"), "C28-R6")
+R.mutant("multi-copy-forward-entry-dropped", REG,
+         sub("        else:\n            dispatch_reg[newowner_ref] = listen_ref\n\n        new_listener_to_key[listen_ref] = key\n",
+             "            continue\n\n        new_listener_to_key[listen_ref] = key\n"), "C28-R6")
+R.mutant("benign-multi-copy-old-owner-lookup-with-get-default", REG,
+         sub(_MULTI_OLD, "    old_listener_to_key = _collection_to_key.get(oldowner_ref, {})\n"), None)
+R.mutant("benign-multi-copy-new-owner-setdefault", REG,
+         sub(_MULTI_NEW, "    new_listener_to_key = _collection_to_key.setdefault(newowner_ref, {})\n"), None)
+R.mutant("benign-multi-copy-fresh-mapping-stored-back", REG,
+         sub(_MULTI_NEW, "    new_listener_to_key = _collection_to_key.get(newowner_ref)\n    if new_listener_to_key is None:\n"
+                         "        new_listener_to_key = _collection_to_key[newowner_ref] = {}\n"), None)
+R.mutant("benign-multi-copy-inverse-entry-inside-else", REG,
+         sub("        else:\n            dispatch_reg[newowner_ref] = listen_ref\n\n        new_listener_to_key[listen_ref] = key\n",
+             "        else:\n            dispatch_reg[newowner_ref] = listen_ref\n            new_listener_to_key[listen_ref] = key\n"), None)
+R.mutant("benign-stored-in-collection-direct-subscripts-reordered", REG,
+         sub("    dispatch_reg[owner_ref] = listen_ref\n\n" + _SIC_TAIL,
+             "    _collection_to_key[owner_ref][listen_ref] = key\n    _key_to_collection[key][owner_ref] = listen_ref\n\n    return True\n"), None)
+_RECORD = ("def _record(\n    key: _EventKeyTupleType, owner_ref: Any, listen_ref: Any\n) -> None:\n"
+           "    _key_to_collection[key][owner_ref] = listen_ref\n    _collection_to_key[owner_ref][listen_ref] = %s\n\n\n")
+_SIC_DEF = "def _stored_in_collection(\n"
+R.mutant("benign-stored-in-collection-record-helper", REG,
+         chain(sub("    dispatch_reg[owner_ref] = listen_ref\n\n" + _SIC_TAIL, "    _record(key, owner_ref, listen_ref)\n\n    return True\n"),
+               sub(_SIC_DEF, _RECORD % "key" + _SIC_DEF)), None)
+R.mutant("stored-in-collection-record-helper-wrong-inverse", REG,
+         chain(sub("    dispatch_reg[owner_ref] = listen_ref\n\n" + _SIC_TAIL, "    _record(key, owner_ref, listen_ref)\n\n    return True\n"),
+               sub(_SIC_DEF, _RECORD % "owner_ref" + _SIC_DEF)), "C28-R6")
